@@ -542,6 +542,13 @@ func (c *Conn) endInbound(offset int, err error) {
 	c.w.cond.Broadcast()
 }
 
+// InLen returns the number of bytes queued for the client so far.
+func (c *Conn) InLen() int {
+	c.w.Mu.Lock()
+	defer c.w.Mu.Unlock()
+	return len(c.In)
+}
+
 // EndInboundLocked is EndInbound for scripts that run with Mu held.
 func (c *Conn) EndInboundLocked(offset int, err error) { c.endInbound(offset, err) }
 
